@@ -248,8 +248,9 @@ class AsyncSocket(base_socket.BaseSocket):
                 break
             except:
                 break
-            if p is None:
-                # connection closed by client
+            if p is None or self.closed:
+                # connection closed by client, or the session has ended and
+                # nothing received after that may reach the application
                 break
             try:
                 pkt = packet.Packet(encoded_packet=p)
